@@ -127,7 +127,7 @@ func newEnv(mode, proto string, nResponses int) (*env, []uint64) {
 func (e *env) feed(chunk []byte) {
 	_, _ = e.raw.Write(chunk)
 	// a Dispatch needs < 16 buffer reads per frame it yields and no frame is shorter than 16 bytes
-	e.buf.Calls, e.buf.Budget = 0, 256+4*e.raw.Len()
+	e.buf.Calls, e.buf.Budget = 0, 256+e.raw.Len()
 	e.sc.Dispatch(e.buf)
 }
 
